@@ -8,7 +8,7 @@ CHECKER = 'coqc props/C11.v (proofs/ParserUbxP.v) + correspondence on API schedu
 
 def schedule(rng):
     """Random schedule of process / set_filter(s) / empty_queue / packet / restart between chunks."""
-    segs, s, _ = G.rand_segments(rng, rng.choice([2, 4, 6]))
+    segs, s, _ = G.rand_segments(rng, rng.choice([2, 4, 6, 6, 6, 6, 6, 6, 6, 45]))
     cids = sorted(set((x[1], x[2]) for x in segs if x[0] in 'FB')) or [(6, 1)]
     ops = []
     pos = 0
@@ -73,6 +73,14 @@ def check(tier, seed):
             cases.append(Case('ubx-schedule', G.ubx_cmd(filt, ops), impl, desc,
                               nontrivial=any(o[0] in ('F', 'FS', 'K') for o in ops),
                               kind='ops:' + ''.join(sorted(set(o[0] for o in ops)))))
+        # long backlogs: many matching frames queued before anything is fetched (first in, first out, nothing lost)
+        for _ in range(12 if tier == 'quick' else 300):
+            n = rng.choice([31, 32, 33, 34, 40, 64, 65, 100, 130])
+            cid = rng.choice(G.CIDS)
+            frames = [G.frame(cid[0], cid[1], bytes([j & 255, j >> 8])) for j in range(n)]
+            ops = [('P', b''.join(frames))] + [('K',)] * (n + 1)
+            impl = G.impl_ubx([cid], ops)
+            cases.append(Case('ubx-backlog', G.ubx_cmd([cid], ops), impl, {'frames': n, 'cid': cid}, kind='backlog'))
         # a frame's last byte decides: filter changed between the first and the last byte of a frame
         for _ in range(100 if tier == 'quick' else 3000):
             c, i = rng.choice(G.CIDS)
